@@ -1,6 +1,8 @@
 """C12 - rectangle mass of a Levy-copula model is a measure consistent with its margins.
 
-Mode: lattice sweep (complete finite products), plus a short history part for the lru_cache of the marginal tail integral.
+Mode: lattice sweep (complete finite products), plus a history part: the lru_cache of the marginal tail integral, copies of a
+used model, a second model used in between, ONE used model walked through the copulas by the public setters, and the
+construction route of the model under test.
 
 Alphabet
   models     mc.alphabets.copula_model_specs(tier) (pairs and triples of HEM / VG / CGMY 0.5 / CGMY 1.2 / Merton margins under
@@ -27,37 +29,83 @@ Alphabet
   tiers      thorough = every model (Levy and exponential) x all rectangles; quick = the quick model list, d = 2 all
              rectangles, d = 3 all rectangles for the Clayton Levy models and, for the others, all 15 intervals in the
              first coordinate x first numeric instances in the second and third
+             spelling: thorough = every model, quick = the first Levy model of every (dimension, copula kind);
+             reparam: one case per margin tuple (quick: Levy models only)
   subsets    all non-empty proper index subsets I, all |I|-tuples of intervals that are not all straddling
+  routes     how the model under test was reached (case["route"], build_model): "direct" (constructors called with the values);
+             "reinit" (margins through mc.alphabets' reinit twin = donor parameter object re-assigned + initialisation();
+             Clayton copula constructed as Clayton(1.9, 0.65) and re-assigned through `copula.theta = / copula.eta =` before
+             the model is built); "reused" (model built with the donor Clayton copula and used - masses, sub-family mass, tail
+             integrals, inverse - then `model.copula.eta = / model.copula.theta =` in place, or `model.copula = <target>` for
+             the parameter-free copulas); "swapped" (model built with a copula of another class and used, then
+             `model.copula = <fresh target copula>`). Every sub-check of the lattice (tails, subfamily, partition, history,
+             rect) runs unchanged on the twins against the reference built from the target values.
+             quick: per dimension the first Clayton model x 3 twin routes, first independent and first dependent pair x
+             (reused, swapped); rect of the 3-d twins: first numeric instances. thorough: first pair and first triple under
+             every copula x 3 twin routes.
+  zeros      an end point equal to zero is written +0.0 and -0.0 (-0.0 == 0.0: the mirror -g[::-1] of a grid, -1 * 0.0):
+             every zero piece of `rect` is asked again with -0.0 on a model that never saw +0.0 (mass and _mass_nd);
+             `tails` asks U_i(-0.0), U_i(0.0) in both orders (two models; the memo treats them as one key); `history` has both
+             writings in its query list (forward pass: +0.0 first, reverse pass: -0.0 first); `spelling` has a fresh model
+             whose zeros are all negative. Only in coordinates where an end point 0 is inside the alphabet (finite activity,
+             or nu_k((0,inf)) reported +inf by the margin).
+  spellings  the Python objects carrying the end points (sub = spelling; one fresh model per spelling): tuples of floats
+             (baseline) / lists / tuples of numpy float64 scalars / numpy arrays / keyword arguments a=, b= / -0.0 as tuples and
+             as arrays - the forms in which distribution.samplingfactory, the grids and numerical.closedform call `mass`.
+             Rectangles: first numeric instances of the 8 types + the zero-touching intervals (-0.4,0] (0,0.25] (-inf,0]
+             (0,inf), at least one coordinate bounded away from zero, all index subsets (d = 3: types pos-fin, neg-fin,
+             neg-inf, str-fin, whole + the two finite zero-touching intervals). `tails` also asks marginal_tail_integral with
+             keywords (i=, x=: its own memo key, the form used by inverse_tail_integral and markovchainsde) and with numpy
+             scalars, tail_integrals(x=ndarray), margin_tail_integral(indices=, x=tuple).
 
 Sub-checks (sub = ...)
   rect       per rectangle: finite; mass >= -slack; fast path (model.mass, _mass_2d/_mass_3d) = _mass_nd; = reference mass
              (mc.oracle.ref_rectangle_mass and the zero-aware reference of this module); additivity under every split
-  subfamily  per (I, rectangle in the I-subspace): mass(.., indices=I) = _mass_nd(.., I) = reference mass built from the
+  subfamily  (+ index lists of size >= 2, the full family included, in every order with the intervals permuted along: same
+             mass, first numeric instances; d = 3: types pos-fin, neg-fin, neg-inf, str-fin, whole)
+             per (I, rectangle in the I-subspace): mass(.., indices=I) = _mass_nd(.., I) = reference mass built from the
              I-margin of the copula (written here from the definition: signed sum over the other arguments at -inf/+inf)
              composed with the marginal tail integrals = mass of the full rectangle with the whole line in the other
              coordinates; for |I| = 1 also = the margin's own Levy mass nu_i((a,b])
   partition  the whole line of every other coordinate is cut at all alphabet points (11 pieces, one of them straddling
              zero); the sum of the masses over all products of pieces = nu_k((a_k,b_k]) for every non-straddling interval
-  tails      marginal_tail_integral(i,x) = sign(x) nu_i(I(x)) on the alphabet (x = 0 only for finite activity, where the
-             value is finite: I(0) = (0,inf)); margin_tail_integral(I, x) and tail_integrals(x) = I-margin of the copula at
+  tails      marginal_tail_integral(i,x) = sign(x) nu_i(I(x)) on the alphabet (at x = +-0.0: I(0) = (0,inf), the value is
+             nu_i((0,inf)), +inf for infinite activity; asked where the margin reports that integral as finite or +inf);
+             margin_tail_integral(I, x) and tail_integrals(x) = I-margin of the copula at
              the marginal tail integrals, all subsets, all point tuples of a 6-letter sub-alphabet;
              inverse_tail_integral(i, U_i(x)) = x and U_i(inverse_tail_integral(i, y)) = y for y inside the range of U_i
-  history    one list of queries (masses, tail integrals, inverses) is evaluated on a fresh model twice (second pass hits
-             the cache), on another fresh model in reverse order, then again after truncate_levy_measure on the used model
-             and on a fresh model truncated before its first query. Asserted: pass 2 = pass 1, reverse = forward (bit
-             for bit: the memoised function is pure) and warm-after-truncation = cold-after-truncation (the answer to a
-             query is a function of the model, not of what was asked before). Whether truncation changes the masses at
-             all is NOT asserted (DESIGN section 9 item 20: it does not reach `mass` on the pinned tree); it is recorded
-             in the counter `truncation_changed_some_value`.
+  history    one list of queries (masses incl. zero-touching rectangles in both writings of zero, tail integrals incl.
+             U(+-0.0), inverses) is evaluated on a fresh model twice (second pass hits the cache), on another fresh model
+             in reverse order, with the tail integrals first, on a deepcopy and on a pickle round trip of the used model,
+             again on the used model after ANOTHER model (margins reversed, another copula) answered the same list, on a
+             fresh model built after that, then again after truncate_levy_measure on the used model and on a fresh model
+             truncated before its first query. Asserted bit for bit: pass 2 = pass 1, every order = forward, copies =
+             original, unchanged by the other model, -0.0 = +0.0 within a pass, and warm-after-truncation =
+             cold-after-truncation (the answer to a query is a function of the model and the rectangle, not of what was
+             asked before, of which object asks, or of how zero is written). Whether truncation changes the masses at all is
+             NOT asserted (DESIGN section 9 item 20: it does not reach `mass` on the pinned tree); it is recorded in the
+             counter `truncation_changed_some_value`. (d = 3: the copy / other-model passes ask the tail integrals, the
+             sub-family masses and the full rectangles over pos-fin, neg-fin, str-fin and the zero-touching intervals.)
+  reparam    state = copula of ONE model that is used in every state; transitions = `model.copula.theta = ..` /
+             `model.copula.eta = ..` (only the attributes that change: set-theta, set-eta, set-theta-eta) between Clayton
+             copulas and `model.copula = ..` otherwise; every ordered pair of alphabet copulas (d = 2 and thorough: the 8
+             of the thorough alphabet, 56 pairs; quick d = 3: the 5 quick copulas) is taken, the walk returning to the source
+             through checked transitions. After each transition masses (all routes, all index subsets), tail integrals and
+             tail_integrals are bit for bit those of a model freshly constructed with the target copula (which the lattice
+             sub-checks compare with the reference). One case per margin tuple.
   density    (Clayton) mass of an off-axis finite rectangle = 2-d quadrature of the implied joint density
              d2F/du1du2 (U_1(x_1), U_2(x_2)) nu_1(x_1) nu_2(x_2) with the mixed derivative of the Clayton formula written
              here; for triples through the 2-margins (which are Clayton with eta = 1/2: verified against the
              definition-based margin before use, otherwise skipped and noted). Compared only when the quadrature's own
              error estimate is below 1e-9 relative, else counted as oracle_inconclusive.
 
-Outside the alphabet (statement silent): a > b; rectangles containing the origin (all coordinates straddling, or closure
-touching the origin in every coordinate); 1-d sub-family intervals containing 0; Python ints as end points (sign() dispatches
-on float); y outside the range of a finite-activity tail integral for the inverse; the value of the masses after
+Outside the alphabet (statement silent): in-place changes of a MARGIN's parameters inside a constructed copula model (like
+truncation they do not reach `mass`: the marginal Levy measures are captured at construction; observation, not asserted);
+FrankLevyCopula (never used by the library; as coded it is a Levy copula for one-sided margins only: on two-sided margins its
+I-margins are 2^(d-1) u and straddling rectangles get negative mass - C11's subject, reported, not enumerated here);
+index subsets given as tuples (annotated list[int]); a > b; rectangles containing the origin (all coordinates straddling, or
+closure touching the origin in every coordinate); 1-d sub-family intervals containing 0; Python ints and numpy float32 as end
+points (sign() dispatches on float); y outside the range of a finite-activity tail integral for the inverse; the value of the masses after
 truncate_levy_measure; closed-form marginal integrals against the density (C09) and copula axioms (C11).
 
 Tolerances: every compared quantity is a signed sum of at most ~30 copula values, each bounded in modulus by
@@ -84,7 +132,9 @@ PID = "C12"
 LEVEL = "exploration"
 RULE = (
     "complete product of copula models x d-tuples of the 15 alphabet intervals per coordinate minus the tuples that "
-    "contain the origin, x all alphabet split points per coordinate, x all index subsets; a case is non-trivial when at "
+    "contain the origin, x all alphabet split points per coordinate (zero written +0.0 and -0.0), x all index subsets, x "
+    "construction routes (direct / reinit / reused / swapped), x spellings of the end points, x all ordered pairs of copulas on "
+    "one used model; a case is non-trivial when at "
     "least one mass of the real model was compared with the reference or with another route of the real code; "
     "distinct = distinct case dict (model, fixed first interval / sub-check)"
 )
@@ -93,6 +143,10 @@ ASSUMPTIONS = [
     "the reference mass shares the copula function (C11) and the margins' closed-form integrate (C09) with the library; "
     "everything else (I-margins, straddle decomposition, tail integrals at zero, signed volume) is re-derived here",
     "values of the masses after truncate_levy_measure are not asserted, only their independence of the query history",
+    "a copula parameter set through the public setters of a copula object (or a copula assigned to model.copula) is an input "
+    "like a constructor argument: the used model must then equal a freshly constructed one; in-place changes of a margin inside "
+    "a constructed copula model are not covered",
+    "-0.0 and 0.0, and float / numpy.float64 / ndarray carriers, denote the same end points",
     "joint-density quadrature (Clayton only) uses scipy nested adaptive quadrature and is compared only when its own error "
     "estimate is below 1e-9 relative",
 ]
@@ -124,6 +178,16 @@ POINTS = sorted({x for iv in INTERVALS for x in (iv["a"], iv["b"]) if math.isfin
 POINTS_SUB = [-1.0, -0.2, -0.03, 0.02, 0.1, 0.7]
 Y_ALPHABET = [0.01, 0.5, 2.0, 50.0]
 TRUNCATIONS = [(-0.5, 0.7), (-0.25, 0.15), (-1.5, 0.3)]
+
+# construction routes of the model under test (the property quantifies over models, not over how they were reached)
+ROUTES = ("direct", "reinit", "reused", "swapped")
+TWIN_ROUTES = ROUTES[1:]
+DONOR_CLAYTON = {"kind": "clayton", "theta": 1.9, "eta": 0.65}  # differs from every alphabet copula in both parameters
+# zero-touching intervals of the spelling / history alphabets (the two pieces of a straddling interval split at zero)
+ZERO_INTERVALS = [(-0.4, 0.0), (0.0, 0.25), (-INF, 0.0), (0.0, INF)]
+SMALL_TYPES = {"pos-fin", "neg-fin", "str-fin", "neg-inf", "whole"}
+CORE_TYPES = {"pos-fin", "neg-fin", "str-fin"}
+SPELLINGS = ("list", "np-scalars", "ndarray", "keywords", "negzero", "negzero-ndarray")
 
 
 # ----------------------------------------------------------------------------------------------------------------------
@@ -181,6 +245,53 @@ def cases(tier):
                 if not thorough and i0 not in (0, 1):
                     continue
                 out.append({"sub": "density", "model": spec, "exp": exp, "pair": list(pair), "i0": i0})
+    # spellings of the end points (direct models): thorough = every Levy model + the exponential Clayton ones,
+    # quick = the first model of every (dimension, copula kind)
+    spell, seen = [], set()
+    for spec, exp in models:
+        key = (len(spec["margins"]), spec["copula"]["kind"], exp)
+        if thorough or (not exp and key not in seen):
+            seen.add(key)
+            spell.append((spec, exp))
+    for spec, exp in spell:
+        out.append({"sub": "spelling", "model": spec, "exp": exp})
+    # walks of ONE used model through the copulas (setters / replacement of model.copula): one case per margin tuple
+    seen = set()
+    for spec, exp in models:
+        key = (tuple(spec["margins"]), exp)
+        if key in seen or (exp and not thorough):
+            continue
+        seen.add(key)
+        out.append({"sub": "reparam", "model": spec, "exp": exp, "targets": "thorough" if (thorough or len(spec["margins"]) == 2) else "quick"})
+    # construction-route twins: every sub-check of the lattice again on the model reached by another route
+    for spec, exp, route in _twin_list(tier):
+        d = len(spec["margins"])
+        for sub in ("tails", "subfamily", "partition", "history"):
+            out.append({"sub": sub, "model": spec, "exp": exp, "route": route})
+        for i0 in (range(len(INTERVALS)) if (d == 2 or thorough) else FIRST):
+            out.append({"sub": "rect", "model": spec, "exp": exp, "i0": i0, "others": "all" if d == 2 else "first", "route": route})
+    return out
+
+
+def _twin_list(tier):
+    """(spec, exp, route): thorough = the first pair and the first triple under every copula x every route that differs from
+    the direct one for that copula; quick = per dimension the first Clayton model x the three routes, and the first
+    independent and the first dependent pair x (reused, swapped)."""
+    thorough = tier == "thorough"
+    out, seen = [], set()
+    for spec in A.copula_model_specs(tier):
+        d, c = len(spec["margins"]), spec["copula"]
+        key = (d, tuple(sorted(c.items()))) if thorough else (d, c["kind"])
+        if key in seen:
+            continue
+        seen.add(key)
+        if not thorough and c["kind"] != "clayton" and d == 3:
+            continue
+        for route in TWIN_ROUTES:
+            if c["kind"] != "clayton" and route == "reinit" and not thorough:
+                continue  # parameter-free copula: the route only re-initialises the margins (covered by the Clayton twin)
+            out.append((spec, False, route))
+    out.sort(key=lambda t: len(t[0]["margins"]))
     return out
 
 
@@ -188,12 +299,79 @@ def cases(tier):
 # context: the real model + independently built ingredients of the reference
 # ----------------------------------------------------------------------------------------------------------------------
 
+def _margin_models(spec, exp, via=None):
+    out = []
+    for name in spec["margins"]:
+        ms = dict(A.MARGINS[name])
+        if exp:  # same transformation as alphabets.make_copula_model (exponential models have their own defaults)
+            ms = dict(ms, exp=True, r=0.02, d=0.0, spot=100.0)
+        if via:
+            ms = dict(ms, via=via)
+        out.append(A.make_model(ms))
+    return out
+
+
+def _warm_up(model, d):
+    """A used model: masses (full and sub-family), tail integrals and an inverse have been asked with the donor copula."""
+    for a, b in (((0.1,) * d, (0.7,) * d), ((-1.0,) * d, (-0.2,) * d), ((-0.4,) + (0.1,) * (d - 1), (0.25,) + (0.7,) * (d - 1)),
+                 ((-INF,) * (d - 1) + (0.3,), (INF,) * d)):
+        model.mass(a, b)
+        nd = getattr(model, "_mass_nd", None)
+        if nd is not None:
+            nd(list(a), list(b))
+    model.mass((0.1,), (0.7,), indices=[d - 1])
+    model.tail_integrals([0.3] * d)
+    if d > 2:
+        model.margin_tail_integral([0, d - 1], iter([0.1, -0.2]))
+    model.inverse_tail_integral(0, 0.5)
+
+
+def build_model(spec, exp=False, route="direct"):
+    """The model of `spec` reached by a construction route:
+    direct   constructors called with the values (alphabets.make_copula_model)
+    reinit   margins through alphabets' "reinit" twin (donor parameter object re-assigned + initialisation()); Clayton copula
+             built with DONOR_CLAYTON and re-assigned through its public setters BEFORE the model is constructed
+    reused   model constructed with the donor Clayton copula and USED (masses, tail integrals, inverse); then the copula of the
+             model is re-parametrised in place through the public setters (Clayton target) or replaced by assignment of
+             `model.copula` (parameter-free targets)
+    swapped  model constructed with a copula of ANOTHER class and used; then `model.copula = <fresh target copula>`"""
+    from rpylib.model.utils import create_levy_copula_model
+
+    c = spec["copula"]
+    d = len(spec["margins"])
+    if route == "direct":
+        return A.make_copula_model(spec, exp=exp)
+    if route == "reinit":
+        cop = A.make_copula(DONOR_CLAYTON if c["kind"] == "clayton" else c)
+        if c["kind"] == "clayton":
+            cop.theta = c["theta"]
+            cop.eta = c["eta"]
+        return create_levy_copula_model(models=_margin_models(spec, exp, via="reinit"), copula=cop)
+    if route == "reused":
+        model = create_levy_copula_model(models=_margin_models(spec, exp), copula=A.make_copula(DONOR_CLAYTON))
+        _warm_up(model, d)
+        if c["kind"] == "clayton":
+            model.copula.eta = c["eta"]
+            model.copula.theta = c["theta"]
+        else:
+            model.copula = A.make_copula(c)
+        return model
+    if route == "swapped":
+        other = {"kind": "dependent"} if c["kind"] == "independent" else {"kind": "independent"}
+        model = create_levy_copula_model(models=_margin_models(spec, exp), copula=A.make_copula(other))
+        _warm_up(model, d)
+        model.copula = A.make_copula(c)
+        return model
+    raise ValueError(route)
+
+
 class Ctx:
     def __init__(self, case):
         spec = case["model"]
         self.spec = spec
         self.exp = bool(case.get("exp", False))
-        self.model = A.make_copula_model(spec, exp=self.exp)
+        self.route = case.get("route", "direct")
+        self.model = build_model(spec, exp=self.exp, route=self.route)
         self.d = len(spec["margins"])
         # fresh margins and a fresh copula object for the reference (never touched by truncate_levy_measure)
         self.nus = [self._fresh_margin(name).levy_triplet.nu for name in spec["margins"]]
@@ -209,8 +387,13 @@ class Ctx:
             ms = dict(ms, exp=True, r=0.02, d=0.0, spot=100.0)
         return A.make_model(ms)
 
-    def fresh_model(self):
-        return A.make_copula_model(self.spec, exp=self.exp)
+    def fresh_model(self, route=None):
+        return build_model(self.spec, exp=self.exp, route=route or self.route)
+
+    def zero_allowed(self, i):
+        """An end point exactly 0 in coordinate i is inside the alphabet: finite activity, or the margin's closed form gives
+        nu_i((0,inf)) = nu_i((-inf,0)) = +inf (not nan)."""
+        return self.fa[i] or self.margin_reports_infinite_mass_at_zero(i)
 
     # -- marginal tail integrals from the definition: U(x) = nu((x,inf)) for x>0, -nu((-inf,x]) for x<0 ---------------
     def U(self, i, x):
@@ -401,6 +584,7 @@ def _sub_rect(sh, case):
     rest = range(len(INTERVALS)) if case["others"] == "all" else FIRST
     full_I = tuple(range(d))
     model = ctx.model
+    model_nz = ctx.fresh_model()  # on this model an end point at zero is always written -0.0 (the mirror -g[::-1] of a grid)
     n_rect = 0
     for tail in itertools.product(rest, repeat=d - 1):
         ivs = [iv0] + [INTERVALS[j] for j in tail]
@@ -454,6 +638,23 @@ def _sub_rect(sh, case):
                     sh.violation(f"C12:additivity:mass:not-additive:{_klass(ctx, a, b)}:split=zero:activity={act}",
                                  f"mass({_fmt(a, b)}) = {m} but split at x_{k}=0 gives {m1} + {m2} = {m1 + m2}",
                                  {"a": a, "b": b, "k": k, "s": 0.0, "whole": m, "left": m1, "right": m2, "scale": S})
+                # -0.0 == 0.0: the same two rectangles with the zero written as the IEEE negative zero
+                for piece, (pa, pb), mref in (("upper", (a, _with(b, k, -0.0)), m1), ("lower", (_with(a, k, -0.0), b), m2)):
+                    for name in ("mass", "_mass_nd"):
+                        fn = _lib(model_nz, name)
+                        if fn is None:
+                            continue
+                        sh.count("evaluations")
+                        try:
+                            v = float(fn(pa, pb) if name == "mass" else fn(list(pa), list(pb)))
+                        except Exception as e:
+                            sh.violation(f"C12:zero-piece:{name}:raises-{type(e).__name__}:negative-zero:zero={piece}:activity={act}",
+                                         f"{name}({_fmt(pa, pb)}) raised {e!r}", {"a": pa, "b": pb})
+                            continue
+                        if not _close(v, mref, S):
+                            sh.violation(f"C12:zero-piece:{name}:negative-zero-differs-from-positive-zero:d={d}:zero={piece}:activity={act}:cop={ctx.kind}",
+                                         f"{name}({_fmt(pa, pb)}) = {v} but with the end point written 0.0 the mass is {mref}",
+                                         {"a": pa, "b": pb, "k": k, "negative_zero": v, "positive_zero": mref, "scale": S})
     sh.count("rectangles", n_rect)
     if n_rect:
         sh.nontriv()
@@ -509,6 +710,38 @@ def _sub_subfamily(sh, case):
                             sh.violation(f"C12:marginal-levy-mass:mass-{label}:differs-from-nu:{kl}",
                                          f"{label} mass of ({a[0]},{b[0]}] in coordinate {I[0]} = {v}, nu_{I[0]}(({a[0]},{b[0]}]) = {nu_mass}",
                                          {"a": a, "b": b, "i": I[0], "value": v, "nu": nu_mass, "scale": S})
+    # a sub-family is a set: the index list in every other order, intervals permuted along (incl. the full family)
+    n_perm = 0
+    for I, a, b in _rect_list(ctx, types=None if d == 2 else SMALL_TYPES, zeros=0):
+        r = len(I)
+        if r < 2:
+            continue
+        try:
+            base = float(model.mass(a, b) if r == d else model.mass(a, b, indices=list(I)))
+        except Exception:
+            continue  # reported above / by rect
+        S = ctx.scale(I, a, b)
+        for perm in itertools.permutations(range(r)):
+            if list(perm) == sorted(perm):
+                continue
+            pI = [I[k] for k in perm]
+            pa, pb = tuple(a[k] for k in perm), tuple(b[k] for k in perm)
+            for name in ("mass", "_mass_nd"):
+                fn = _lib(model, name)
+                if fn is None:
+                    continue
+                sh.count("evaluations")
+                n_perm += 1
+                try:
+                    v = float(fn(pa, pb, indices=list(pI)))
+                except Exception as e:
+                    sh.violation(f"C12:index-order:{name}:raises-{type(e).__name__}:I={r}of{d}:cop={ctx.kind}", f"{name}({_fmt(pa, pb)}, indices={pI}) raised {e!r}", {"a": pa, "b": pb, "indices": pI})
+                    continue
+                if not _close(v, base, S):
+                    sh.violation(f"C12:index-order:{name}:differs-from-increasing-order:I={r}of{d}:cop={ctx.kind}",
+                                 f"{name}({_fmt(pa, pb)}, indices={pI}) = {v} but {_fmt(a, b)} with indices={list(I)} has mass {base}",
+                                 {"a": pa, "b": pb, "indices": pI, "value": v, "increasing_order": base, "scale": S})
+    sh.count("permuted_index_lists", n_perm)
     sh.count("subfamily_rectangles", n)
     sh.nontriv()
 
@@ -564,21 +797,27 @@ def _sub_tails(sh, case):
     ctx = Ctx(case)
     d = ctx.d
     model = ctx.model
+    other = ctx.fresh_model()  # asks the two zeros in the other order (the memo treats 0.0 and -0.0 as one key)
     for i in range(d):
         act = "finite" if ctx.fa[i] else "infinite"
-        xs = POINTS + [-INF, INF] + ([0.0] if ctx.fa[i] else [])
-        for x in xs:
-            ref = ctx.U0(i, +1) if x == 0 else ctx.U(i, x)
+        zeros = ctx.zero_allowed(i)  # I(0) = (0,inf): U(0) = U(-0.0) = nu((0,inf)), +inf for infinite activity
+        xs = [(model, x, "positional") for x in POINTS + [-INF, INF] + ([-0.0, 0.0] if zeros else [])]
+        xs += [(other, x, "positional") for x in ([0.0, -0.0] if zeros else [])]
+        xs += [(other, x, "keywords") for x in POINTS_SUB + ([-0.0] if zeros else [])]
+        xs += [(other, np.float64(x), "np.float64") for x in POINTS_SUB + ([-0.0] if zeros else [])]
+        for mdl, x, how in xs:
+            ref = ctx.U0(i, +1) if x == 0 else ctx.U(i, float(x))
+            zs = ("zero" if math.copysign(1.0, x) > 0 else "negative-zero") if x == 0 else _side(x)
             sh.count("evaluations")
             try:
-                v = float(model.marginal_tail_integral(i, x))
+                v = float(mdl.marginal_tail_integral(i=i, x=x) if how == "keywords" else mdl.marginal_tail_integral(i, x))
             except Exception as e:
-                sh.violation(f"C12:tails:marginal_tail_integral:raises-{type(e).__name__}:side={_side(x)}:activity={act}", f"U_{i}({x}) raised {e!r}", {"i": i, "x": x})
+                sh.violation(f"C12:tails:marginal_tail_integral:raises-{type(e).__name__}:side={zs}:activity={act}", f"U_{i}({x!r}) ({how}) raised {e!r}", {"i": i, "x": float(x), "how": how})
                 continue
             sh.outcome(float(v).hex())
             if not core.close(v, ref, rtol=1e-12, atol=0.0):
-                sh.violation(f"C12:tails:marginal_tail_integral:differs-from-sign-nu-I:side={_side(x)}:activity={act}",
-                             f"U_{i}({x}) = {v}, sign(x) nu(I(x)) = {ref}", {"i": i, "x": x, "value": v, "reference": ref})
+                sh.violation(f"C12:tails:marginal_tail_integral:differs-from-sign-nu-I:side={zs}:activity={act}",
+                             f"U_{i}({x!r}) ({how}) = {v}, sign(x) nu(I(x)) = {ref}", {"i": i, "x": float(x), "how": how, "value": v, "reference": ref})
     # I-margins of the tail integral
     for r in range(1, d + 1):
         for I in itertools.combinations(range(d), r):
@@ -591,6 +830,9 @@ def _sub_tails(sh, case):
                 routes = {"margin_tail_integral": lambda: model.margin_tail_integral(list(I), iter(xs))}
                 if r == d:
                     routes["tail_integrals"] = lambda: model.tail_integrals(list(xs))
+                    routes["tail_integrals-keyword-ndarray"] = lambda: model.tail_integrals(x=np.array(xs))
+                if r >= 2:  # the spelling of numerical.closedform.cflevycopula
+                    routes["margin_tail_integral-keyword-tuple"] = lambda: model.margin_tail_integral(indices=list(I), x=tuple(xs))
                 for name, fn in routes.items():
                     sh.count("evaluations")
                     try:
@@ -648,27 +890,66 @@ def _sub_tails(sh, case):
 # histories on the lru_cache
 # ----------------------------------------------------------------------------------------------------------------------
 
-def _queries(d):
-    q = []
-    ivs = [INTERVALS[j] for j in FIRST]
-    for tup in itertools.product(ivs, repeat=d):
-        if all(iv["t"] in STRADDLING for iv in tup):
-            continue
-        a = tuple(iv["a"] for iv in tup)
-        b = tuple(iv["b"] for iv in tup)
-        q.append(("mass", a, b, None))
-        q.append(("_mass_nd", a, b, None))
-    for r in range(1, d):
+def _rect_list(ctx, types=None, zeros=4):
+    """Rectangles of the history / spelling alphabets: first numeric instances of the interval types (all 8, or `types`) plus,
+    per coordinate where an end point 0 is inside the alphabet, the first `zeros` zero-touching intervals; at least one coordinate is
+    bounded away from zero (the closure of the rectangle does not contain the origin). Zeros are written +0.0."""
+    d = ctx.d
+    ivs = [(INTERVALS[j]["t"], INTERVALS[j]["a"], INTERVALS[j]["b"]) for j in FIRST if types is None or INTERVALS[j]["t"] in types]
+    per_axis = [ivs + ([("zero", a, b) for a, b in ZERO_INTERVALS[:int(zeros)]] if zeros and ctx.zero_allowed(i) else []) for i in range(d)]
+    away = {"pos-fin", "neg-fin", "pos-inf", "neg-inf"}
+    out = []
+    for r in range(d, 0, -1):
         for I in itertools.combinations(range(d), r):
-            for tup in itertools.product(ivs, repeat=r):
-                if all(iv["t"] in STRADDLING for iv in tup):
+            for tup in itertools.product(*[per_axis[i] for i in I]):
+                if not any(t in away for t, _, _ in tup):
                     continue
-                q.append(("mass", tuple(iv["a"] for iv in tup), tuple(iv["b"] for iv in tup), list(I)))
+                out.append((I, tuple(a for _, a, _ in tup), tuple(b for _, _, b in tup)))
+    return out
+
+
+def _has_zero(a, b):
+    return any(x == 0 for x in a) or any(x == 0 for x in b)
+
+
+def _neg_zero(v):
+    return tuple(-0.0 if x == 0 else x for x in v)
+
+
+def _pos_zero(v):
+    if isinstance(v, (tuple, list)):
+        return tuple(0.0 if x == 0 else x for x in v)
+    return 0.0 if (isinstance(v, float) and v == 0) else v
+
+
+def _queries(ctx, small=False):
+    """Forward order: every zero end point is asked as +0.0 before it is asked as -0.0 (the reverse pass does the opposite)."""
+    d = ctx.d
+    q = []
+    if small:
+        rects = _rect_list(ctx, types=SMALL_TYPES if d == 3 else None, zeros=0)
+    elif d == 2:
+        rects = _rect_list(ctx)
+    else:  # d = 3: all 8 types without zeros, and the zero-touching intervals among the three finite types
+        rects = _rect_list(ctx, zeros=0)
+        rects += [r for r in _rect_list(ctx, types=CORE_TYPES, zeros=2) if _has_zero(r[1], r[2])]
+    for I, a, b in rects:
+        full = len(I) == d
+        spell = [(a, b)] + ([(_neg_zero(a), _neg_zero(b))] if _has_zero(a, b) else [])
+        for pa, pb in spell:
+            q.append(("mass", pa, pb, None if full else list(I)))
+            if full:
+                q.append(("_mass_nd", pa, pb, None))
     for i in range(d):
-        for x in POINTS:
+        pts = POINTS_SUB if small else POINTS
+        for x in pts + ([0.0, -0.0] if ctx.zero_allowed(i) else []):
             q.append(("U", i, x, None))
-        q.append(("inv", i, 0.5, None))
-        q.append(("inv", i, -0.5, None))
+        if not small:
+            q.append(("inv", i, 0.5, None))
+            q.append(("inv", i, -0.5, None))
+    if small:
+        for xs in itertools.product((-0.2, 0.1), repeat=d):
+            q.append(("F", xs, None, None))
     return q
 
 
@@ -682,6 +963,8 @@ def _ask(model, qu):
             v = fn(list(p), list(r)) if fn is not None else 0.0
         elif kind == "U":
             v = model.marginal_tail_integral(p, r)
+        elif kind == "F":
+            v = model.tail_integrals(list(p))
         else:
             v = model.inverse_tail_integral(p, r)
         return float(v).hex()
@@ -689,16 +972,54 @@ def _ask(model, qu):
         return f"raised {type(e).__name__}"
 
 
+def _qclass(q):
+    """Query class for the violation keys: kind + whether a zero end point / argument is involved and how it is written."""
+    vals = [x for part in q[1:3] if part is not None for x in (part if isinstance(part, (tuple, list)) else (part,))]
+    z = [x for x in vals if isinstance(x, float) and x == 0]
+    if not z:
+        return q[0]
+    return q[0] + (":negative-zero" if any(math.copysign(1.0, x) < 0 for x in z) else ":zero")
+
+
 def _sub_history(sh, case):
+    import copy
+    import pickle
+
     ctx = Ctx(case)
     d = ctx.d
-    Q = _queries(d)
+    Q = _queries(ctx)
     trunc = TRUNCATIONS[:d]
     m1 = ctx.fresh_model()
     r1 = [_ask(m1, q) for q in Q]
     r1b = [_ask(m1, q) for q in Q]
     m2 = ctx.fresh_model()
     r2 = [_ask(m2, q) for q in reversed(Q)][::-1]
+    # the passes on copies / around another model ask the whole list in dimension 2 and, in dimension 3, the tail-integral
+    # queries, the sub-family masses and the full rectangles over the three finite types and the zero-touching intervals
+    if d == 2:
+        sub = list(range(len(Q)))
+    else:
+        core_rects = {(a, b) for I, a, b in _rect_list(ctx, types=CORE_TYPES, zeros=2) if len(I) == d}
+        sub = [j for j, q in enumerate(Q) if q[0] in ("U", "inv") or q[3] is not None or (_pos_zero(q[1]), _pos_zero(q[2])) in core_rects]
+    Qs = [Q[j] for j in sub]
+    r1s = [r1[j] for j in sub]
+    # copies of the used model (what a pool of workers receives), asked for the first time
+    r6 = [_ask(copy.deepcopy(m1), q) for q in Qs]
+    try:
+        m7 = pickle.loads(pickle.dumps(m1))
+    except Exception as e:  # not every model has to be picklable with the standard pickler (the engines use dill)
+        sh.note(f"history: pickle round trip of the model not possible ({type(e).__name__})")
+        m7 = None
+    r7 = [_ask(m7, q) for q in Qs] if m7 is not None else None
+    # a second object of the same class, with other margins per coordinate and another copula, used in between
+    other_spec = {"margins": list(reversed(ctx.spec["margins"])),
+                  "copula": {"kind": "independent"} if ctx.kind == "clayton" else dict(DONOR_CLAYTON)}
+    m8 = build_model(other_spec, exp=ctx.exp)
+    for q in Qs:
+        _ask(m8, q)
+    r8 = [_ask(m1, q) for q in Qs]
+    m9 = ctx.fresh_model()
+    r9 = [_ask(m9, q) for q in Qs]
     m1.truncate_levy_measure(trunc)
     r3 = [_ask(m1, q) for q in Q]
     m3 = ctx.fresh_model()
@@ -711,16 +1032,36 @@ def _sub_history(sh, case):
     for j in order:
         r5[j] = _ask(m5, Q[j])
 
-    def cmp(x, y, what, key):
-        for q, u, v in zip(Q, x, y):
+    def cmp(x, y, what, key, qs=Q):
+        for q, u, v in zip(qs, x, y):
             sh.count("evaluations")
             if u != v:
-                sh.violation(f"C12:history:{q[0]}:{key}:d={d}", f"{q[0]}{q[1:]} {what}: {u} vs {v}", {"query": q, "first": u, "second": v})
+                sh.violation(f"C12:history:{_qclass(q)}:{key}:d={d}", f"{q[0]}{q[1:]} {what}: {u} vs {v}", {"query": q, "first": u, "second": v})
 
     cmp(r1, r1b, "changed when asked a second time", "second-query-differs")
     cmp(r1, r2, "differs when the queries are made in reverse order on a fresh model", "order-dependent")
     cmp(r1, r5, "differs when the tail integrals are queried before the masses on a fresh model", "order-dependent")
+    cmp(r1s, r6, "differs on a deepcopy of the used model", "copy-differs", Qs)
+    if r7 is not None:
+        cmp(r1s, r7, "differs on a pickle round trip of the used model", "copy-differs", Qs)
+    cmp(r1s, r8, "changed after another model (other margins, other copula) answered the same queries", "changed-by-another-model", Qs)
+    cmp(r1s, r9, "differs on a fresh model built after another model answered the same queries", "changed-by-another-model", Qs)
     cmp(r3, r4, "after truncate_levy_measure differs between a model queried before the truncation and a fresh one", "stale-after-truncation")
+    # the two spellings of a zero end point denote the same rectangle / argument (in r1 +0.0 is asked first, in r2 -0.0)
+    def norm(q):
+        return repr((q[0], _pos_zero(q[1]), _pos_zero(q[2]), q[3]))
+
+    twin = {norm(q): j for j, q in enumerate(Q) if _qclass(q).endswith(":zero")}
+    for j, q in enumerate(Q):
+        if not _qclass(q).endswith(":negative-zero") or norm(q) not in twin:
+            continue
+        for res, first in ((r1, "+0.0"), (r2, "-0.0")):
+            sh.count("evaluations")
+            u, v = res[j], res[twin[norm(q)]]
+            if u != v:
+                sh.violation(f"C12:history:{q[0]}:negative-zero-differs-from-positive-zero:d={d}",
+                             f"{q[0]}{q[1:]} = {u} but with the zero written +0.0 it is {v} (one model, {first} asked first)",
+                             {"query": q, "negative_zero": u, "positive_zero": v, "asked_first": first})
     changed = sum(1 for u, v in zip(r1, r3) if u != v)
     sh.count("truncation_changed_some_value", 1 if changed else 0)
     sh.count("history_queries", len(Q))
@@ -728,6 +1069,138 @@ def _sub_history(sh, case):
     if any(v.startswith("raised") for v in r1):
         bad = next(q for q, v in zip(Q, r1) if v.startswith("raised"))
         sh.violation(f"C12:history:{bad[0]}:raises:d={d}", f"query {bad} raised on a fresh model", {"query": bad})
+    sh.nontriv()
+
+
+# ----------------------------------------------------------------------------------------------------------------------
+# one used model walked through the copulas
+# ----------------------------------------------------------------------------------------------------------------------
+
+def _ckey(c):
+    return c["kind"] + (f"({c['theta']},{c['eta']})" if c["kind"] == "clayton" else "")
+
+
+def _sub_reparam(sh, case):
+    """State = copula of ONE model object that is used in every state; transitions = the public ways to change it:
+    `model.copula.theta = ..` / `.eta = ..` (only the attributes that change) between two Clayton copulas, `model.copula = ..`
+    otherwise. Every ordered pair of alphabet copulas is taken once (the walk returns to the source through checked
+    transitions). After each transition every query must give what a model freshly constructed with the target copula gives."""
+    ctx = Ctx(case)
+    d = ctx.d
+    Q = _queries(ctx, small=True)
+    cops = A.copula_specs(case.get("targets", "quick"))
+    fresh = {}
+
+    def expected(c):
+        k = _ckey(c)
+        if k not in fresh:
+            m = build_model(dict(ctx.spec, copula=c), exp=ctx.exp)
+            fresh[k] = [_ask(m, q) for q in Q]
+        return fresh[k]
+
+    model = ctx.fresh_model("direct")
+    cur = ctx.spec["copula"]
+    for q in Q:
+        _ask(model, q)
+    n = 0
+
+    def step(to):
+        nonlocal cur, n
+        if cur["kind"] == "clayton" and to["kind"] == "clayton":
+            ops = []
+            if cur["theta"] != to["theta"]:
+                model.copula.theta = to["theta"]
+                ops.append("theta")
+            if cur["eta"] != to["eta"]:
+                model.copula.eta = to["eta"]
+                ops.append("eta")
+            op = "set-" + "-".join(ops)
+        else:
+            model.copula = A.make_copula(to)
+            op = f"replace-{cur['kind']}-by-{to['kind']}"
+        got = [_ask(model, q) for q in Q]
+        sh.cls(f"reparam:{op}")
+        n += 1
+        for q, u, v in zip(Q, got, expected(to)):
+            sh.count("evaluations")
+            if u != v:
+                sh.violation(f"C12:reparam:{q[0]}:differs-from-fresh-model-after-{op}:d={d}",
+                             f"{q[0]}{q[1:]} on a used model after {_ckey(cur)} -> {_ckey(to)} = {u}, fresh model with the target copula: {v}",
+                             {"query": q, "from": cur, "to": to, "used_model": u, "fresh_model": v})
+        sh.outcome((op, got[0]))
+        cur = to
+
+    for f in cops:
+        for t in cops:
+            if _ckey(f) == _ckey(t):
+                continue
+            if _ckey(cur) != _ckey(f):
+                step(f)
+            step(t)
+    sh.count("reparam_transitions", n)
+    sh.nontriv()
+
+
+# ----------------------------------------------------------------------------------------------------------------------
+# spellings of one rectangle
+# ----------------------------------------------------------------------------------------------------------------------
+
+def _spell(how, a, b):
+    if how in ("negzero", "negzero-ndarray"):
+        a, b = _neg_zero(a), _neg_zero(b)
+    if how == "list":
+        return list(a), list(b)
+    if how == "np-scalars":
+        return tuple(np.float64(x) for x in a), tuple(np.float64(x) for x in b)
+    if how in ("ndarray", "negzero-ndarray"):
+        return np.array(a, dtype=float), np.array(b, dtype=float)
+    return tuple(a), tuple(b)
+
+
+def _sub_spelling(sh, case):
+    """The rectangle is the input, not the Python objects that carry its end points: tuples of floats (baseline), lists,
+    tuples of numpy scalars (zip(*cells) of grid arrays: numerical/samplingfactory), numpy arrays (grid.middle), keyword
+    arguments (a=, b=), and zero written -0.0 (mirrored grids). One fresh model per spelling, so that the spelled end points are
+    the first to reach the memoised tail integral."""
+    ctx = Ctx(case)
+    d = ctx.d
+    rects = _rect_list(ctx) if d == 2 else _rect_list(ctx, types=SMALL_TYPES, zeros=2)
+    base = {}
+    for j, (I, a, b) in enumerate(rects):
+        full = len(I) == d
+        try:
+            base[j] = float(ctx.model.mass(a, b) if full else ctx.model.mass(a, b, indices=list(I)))
+        except Exception:
+            base[j] = None  # reported by the rect / subfamily sub-checks
+    for how in SPELLINGS:
+        mdl = ctx.fresh_model()
+        for j, (I, a, b) in enumerate(rects):
+            if base[j] is None or (how.startswith("negzero") and not _has_zero(a, b)):
+                continue
+            full = len(I) == d
+            pa, pb = _spell(how, a, b)
+            S = ctx.scale(I, a, b)
+            zc = _zero_class(a, b)
+            routes = {"mass": (lambda: mdl.mass(a=pa, b=pb) if full else mdl.mass(a=pa, b=pb, indices=list(I))) if how == "keywords"
+                      else (lambda: mdl.mass(pa, pb) if full else mdl.mass(pa, pb, indices=list(I)))}
+            nd = _lib(mdl, "_mass_nd")
+            if nd is not None and how != "keywords":
+                routes["_mass_nd"] = lambda: nd(pa, pb) if full else nd(pa, pb, list(I))
+            for name, fn in routes.items():
+                sh.count("evaluations")
+                try:
+                    v = float(fn())
+                except Exception as e:
+                    sh.violation(f"C12:spelling:{name}:raises-{type(e).__name__}:{how}:I={len(I)}of{d}:zero={zc}", f"{name}({_fmt(a, b)}, indices={list(I)}) written as {how} raised {e!r}",
+                                 {"a": a, "b": b, "indices": list(I), "spelling": how})
+                    continue
+                if not (_close(v, base[j], S) or (math.isnan(v) and math.isnan(base[j]))):
+                    sh.violation(f"C12:spelling:{name}:differs-from-tuple-of-floats:{how}:I={len(I)}of{d}:zero={zc}:cop={ctx.kind}",
+                                 f"{name}({_fmt(a, b)}, indices={list(I)}) written as {how} = {v}, as tuples of Python floats = {base[j]}",
+                                 {"a": a, "b": b, "indices": list(I), "spelling": how, "value": v, "baseline": base[j], "scale": S})
+        sh.cls(f"spelling:{how}")
+    sh.count("spelling_rectangles", len(rects))
+    sh.outcome((len(rects), float(base[0] or 0.0).hex()))
     sh.nontriv()
 
 
